@@ -288,7 +288,7 @@ Proof.
   assert (EL : h_post (h_fuel h) h n = post_f ch).
   { apply h_post_ok; [assumption| |now apply (fuel_enough h t)]. intros s Hs. apply (rep_node_children h t s W R). now apply Sub. }
   assert (PL : Permutation (post_f ch) (map rid (pre_f ch))) by (apply (proj2 post_perm)).
-  unfold h_remove_children. rewrite EL.
+  unfold h_remove_children. rewrite EL. apply Rep_touch.
   destruct (unreg_fold (post_f ch) h) as (I1 & I2 & I3 & I4 & I5 & I6 & I7 & I8 & I9).
   set (h1 := fold_left h_unregister (post_f ch) h) in *.
   assert (G' : get_ch pq f = Some ([] ++ ch ++ [])) by (now rewrite app_nil_r).
@@ -346,7 +346,8 @@ Proof.
   assert (Ic : incl (ids (rch s)) (ids f)) by (intros x Hx; unfold ids in *; apply in_map_iff in Hx; destruct Hx as (y & <- & Hy); apply in_map; now apply Sub).
   assert (EL : h_post (h_fuel h) h n = post_f (rch s)).
   { apply h_post_ok; [assumption| |now apply (fuel_enough h t)]. intros x Hx. apply (rep_node_children h t x W R). now apply Sub. }
-  unfold h_remove_children. rewrite EL.
+  assert (Nz : n <> 0) by (intros E0; apply (wf_pos t W); fold f; rewrite <- E0, <- Rs; unfold ids; now apply in_map).
+  unfold h_remove_children. rewrite EL, (touch_root_id _ n Nz).
   destruct (unreg_fold (post_f (rch s)) h) as (I1 & I2 & I3 & I4 & I5 & I6 & I7 & I8 & I9).
   set (hD := fold_left h_unregister (post_f (rch s)) h) in *.
   assert (PD : Permutation (post_f (rch s)) (ids (rch s))) by (apply (proj2 post_perm)).
